@@ -90,6 +90,7 @@ func c04Decl(variant int, opts flags.Options) *decl.Decl {
 		{Field: "Sink", Long: "sink", Type: decl.TSink},
 		{Field: "Auto", Long: "auto", Type: decl.TInt, Base: "0", Initial: 5},
 		{Field: "NilCb", Long: "nilcb", Type: decl.TFuncS, NilFunc: true}, // a callback the program never assigned
+		{Field: "MapCh", Long: "mapchoice", Type: decl.TMapSS, Choices: []string{"k:a", "k:b"}},
 	}}
 	cmd := &decl.Cmd{Field: "Cmd", Name: "cmd", Opts: []*decl.Opt{{Field: "Z", Short: "z", Long: "zed", Type: decl.TBool}},
 		Pos: []*decl.PosArg{{Field: "N", Type: decl.TInt}}}
@@ -126,7 +127,7 @@ var c04Tokens = []string{
 	"", "-", "--", "---", "-a", "-s", "-sval", "-s=", "-s=v", "--str", "--str=", `--str="q"`, `--str="`, "-i", "-i5", "-i=x", "-5", "-i-5",
 	"-m", "-mk:1", "-mk", "-mk:x", "-lx", "-c", "-c=1", "-k", "-e13", "-e12", "-Ubad", "-Uok", "-P", "nope", "-Cx", "-Cz", "-O", "-O=1",
 	"-é", "-aé5", "-B", "--boolchoice", "--help", "-h", "--=x", "-=", `-"`, "cmd", "7", "w", "-z", "--all=1", "-a\xff", "\xff", "--unk", "-x",
-	"-r", "--refuse", "-ar", "é1", "añadir", "日本語", "cmdé", "usage", "--optbad", "dbg", "--sink=x", "--nilcb=x",
+	"-r", "--refuse", "-ar", "é1", "añadir", "日本語", "cmdé", "usage", "--optbad", "dbg", "--sink=x", "--nilcb=x", "--mapchoice=net", "--mapchoice=k:a",
 	"--levelkeys=k:v", "--levelvals=k:v", "--pints=-3", "-v\x00", "--50%off",
 	"x234567890123456789012345678901", "x2345678901234567890123456789012", "x23456789012345678901234567890123", // 31, 32, 33 characters
 	"y234567890123456789012345678901234567890123456789012345678901234", "y2345678901234567890123456789012345678901234567890123456789012345", // 64, 65
@@ -320,7 +321,7 @@ func init() {
 		DevBound:   func(bool) int { return 2 },
 		Rule: "four declarations covering every option kind (flags, scalars, map, slice, four callback signatures incl. one that always returns an error, Unmarshaler, ValueValidator, choices on a string and on a bool flag, optional argument, non-ASCII and digit short names, " +
 			"interface-, array-, pointer-to-bool typed fields, a required option, a command with an int positional, an optional-argument option whose optional-value does not convert, a command whose only subcommand is hidden, an Unmarshaler with a value receiver, an integer with base 0 holding a value, a callback option left nil; the third declaration makes the command mandatory so that unknown words reach the unknown-command diagnosis (words of 31..33 and 64..65 characters included); the fourth is built through the API, has an executable command whose Execute returns an ErrHelp-typed error of its own, and one string option with a default handed over with (*Group).AddOption; maps with named string key / value types and []*int are among the option types); option sets: None and Default with up to 2 of the 5 flags toggled (32 sets); as one more deviation the same parser first fails a parse because an environment default does not convert (must be ErrMarshal, printed exactly as PrintErrors prescribes) and is then used again; inputs: (i) every byte string of length <= 4 (quick) / <= 5 (thorough) " +
-			"over {- = a s x \" \\ 0xC3 0xA9 : 5} as a token alone, after -s, after a command word, after --; (ii) every vector of <= 2 (quick) / <= 3 (thorough) tokens over 76 pathological tokens; oracle: returns normally, error nil or typed as the CLM's fault says, " +
+			"over {- = a s x \" \\ 0xC3 0xA9 : 5} as a token alone, after -s, after a command word, after --; (ii) every vector of <= 2 (quick) / <= 3 (thorough) tokens over 78 pathological tokens; oracle: returns normally, error nil or typed as the CLM's fault says, " +
 			"stdout/stderr deltas exactly as PrintErrors prescribes; distinct = distinct (declaration, option set, error class, wrote stdout?, wrote stderr?, model fault)",
 		Assumptions:  []string{"os.Stdout / os.Stderr are swapped for files per worker process and offset deltas read per leaf", "declarations reflect.StructOf cannot build (unexported fields in positional structs) are outside the space"},
 		RequiredHits: []string{"print-errors", "help-printed", "foreign-positional-error", "err:unknown flag", "err:expected argument", "err:marshal", "err:no argument for bool", "err:invalid choice", "err:help", "err:required", "err:ok", "option-added-with-AddOption"},
